@@ -24,7 +24,8 @@ var verifNotified []types.Uid
 var verifPrevBase = types.ModeCPublic // fixed bits of the former member's stored modes
 var verifForceActor = -1              // index into allUsers(), -1 = any
 
-const verifSubBits = types.ModeOwner | types.ModeJoin | types.ModeApprove | types.ModeShare
+// bits of every requested/granted/stored mode that are symbolic (a knob: focused harnesses widen it)
+var verifSubBits = types.ModeOwner | types.ModeJoin | types.ModeApprove | types.ModeShare
 
 // verifModeBits returns base with the O, J, A, S bits arbitrary.
 func verifModeBits(name string, base types.AccessMode) types.AccessMode {
